@@ -1,6 +1,7 @@
 package replay
 
 import (
+	"sync/atomic"
 	"bytes"
 	"crypto/sha256"
 	"encoding/hex"
@@ -67,6 +68,7 @@ type Gate struct {
 	wRound   chan struct{} // the worker is parked before a phase-2 round of a removal
 	parkRound bool
 	rec      *ltRec // trace recorder of a free-running replay (harness/replay/ledgertrace.go)
+	busyH, busyW int32 // the follower / the worker is between taking work and the top of its loop
 }
 
 func newGate() *Gate {
@@ -94,12 +96,22 @@ func init() {
 		if g == nil {
 			return
 		}
+		switch point {
+		case "handle.block", "handle.tx", "handle.suspended":
+			atomic.StoreInt32(&g.busyH, 1)
+		case "handle.top":
+			atomic.StoreInt32(&g.busyH, 0)
+		case "worker.suspend":
+			atomic.StoreInt32(&g.busyW, 1)
+		case "worker.top":
+			atomic.StoreInt32(&g.busyW, 0)
+		}
 		g.mu.Lock()
 		open := g.open
 		rec := g.rec
 		g.mu.Unlock()
 		if rec != nil {
-			rec.gate(point)
+			rec.gate(g, point)
 		}
 		if open {
 			return
